@@ -13,7 +13,8 @@ A *step* is one `build` statement.  Steps that are executed: every statement who
    uninstall, clean, clean-ctlist, coverage*, scan-build, clang-format*, clang-tidy*, run_target()s — commands that never
    produce their "output"), and everything that (transitively) depends on one of these (the phony aliases `test`, …).
 `phony` statements are no-op steps (they still order things).  `restat`, `generator`, `pool`, `description` are ignored;
-`rspfile` is written before and removed after the command; a `deps = gcc` depfile is read and removed.
+`rspfile` is written before and removed after the command; a `deps = gcc` depfile is read and removed; the directories
+of a step's outputs are created before it runs (as ninja does).
 """
 from __future__ import annotations
 
@@ -241,6 +242,9 @@ class Slot:
         if e['rule'] == 'phony':
             return {'rc': 0, 'out': '', 'digests': {}, 'probes': None, 'depfile_deps': []}
         c = nj.edge_command(g.man, e)
+        for o in g.all_outs(i):
+            # ninja creates the directories of a statement's outputs before it starts the command (Builder::StartEdge)
+            os.makedirs(os.path.dirname(os.path.join(self.build, o)), exist_ok=True)
         if c['rspfile']:
             rp = os.path.join(self.build, c['rspfile'])
             os.makedirs(os.path.dirname(rp), exist_ok=True)
@@ -278,6 +282,10 @@ class Slot:
             probes = read_traces(self.trace, self.build)
             shutil.rmtree(self.trace, ignore_errors=True)
         digests = {o: file_digest(os.path.join(self.build, o)) for o in g.all_outs(i)}
+        if e['rule'].endswith('_PCH'):
+            # gcc's precompiled headers are not reproducible byte for byte (they are a dump of compiler memory);
+            # only their existence is compared, the objects compiled with them are compared in full
+            digests = {o: ('PRESENT' if d != 'MISSING' else d) for o, d in digests.items()}
         return {'rc': rc, 'out': out[-3000:], 'digests': digests, 'probes': probes,
                 'depfile_deps': [nj.canon(d) for d in deps], 'command': c['command']}
 
@@ -426,7 +434,8 @@ def reference_build(slot: Slot, g: BuildGraph) -> dict:
         if not progress and not ready:
             break
     return {'done': done, 'digests': digests, 'findings': findings,
-            'broken': [(g.name(x), out[-1500:], cmd) for x, _d, out, cmd in failed]}
+            'broken': [(g.name(x), out[-1500:], cmd) for x, _d, out, cmd in failed],
+            'broken_steps': [x for x, _d, _o, _c in failed]}
 
 
 def hermetic_replay(slot: Slot, g: BuildGraph, s: int, ref_digests: T.Dict[str, str], extra_steps: T.Sequence[int] = (),
@@ -454,9 +463,14 @@ def run_schedule(slot: Slot, g: BuildGraph, order: T.Sequence[int]) -> dict:
             return {'ok': False, 'failed': i, 'pos': k, 'out': r['out'], 'command': r.get('command', ''), 'digests': digests}
         digests.update(r['digests'])
     # a later step may have rewritten an earlier output: digest at the end
-    for o in list(digests):
-        digests[o] = file_digest(os.path.join(slot.build, o))
+    final_digests(slot, g, digests)
     return {'ok': True, 'digests': digests}
+
+
+def final_digests(slot: Slot, g: BuildGraph, digests: T.Dict[str, str]) -> None:
+    for o in list(digests):
+        if digests[o] != 'PRESENT':
+            digests[o] = file_digest(os.path.join(slot.build, o))
 
 
 def run_parallel(slot: Slot, g: BuildGraph, jobs: int, rng) -> dict:
@@ -496,8 +510,7 @@ def run_parallel(slot: Slot, g: BuildGraph, jobs: int, rng) -> dict:
         if fail is not None:
             wait(list(flying))
             return fail
-    for o in list(digests):
-        digests[o] = file_digest(os.path.join(slot.build, o))
+    final_digests(slot, g, digests)
     return {'ok': True, 'digests': digests, 'started': started, 'finished': finished}
 
 
@@ -521,8 +534,29 @@ def check_built_project(slot: Slot, text: str, rng, n_random: int, jobs: int = 4
     ref = reference_build(slot, g)
     res['findings'] += ref['findings']
     if ref['broken']:
+        # a step that fails even after everything that can be built has been built: no schedule at all succeeds.
+        # Look at what it wanted: a path that nobody produces although a statement produces the same file name
+        # elsewhere is a command line that disagrees with the graph about where an output lives.
         res['status'] = 'broken'
         res['broken'] = ref['broken']
+        x = ref['broken_steps'][0]
+        r = slot.run_step(g, x, trace=True)
+        misplaced = []
+        for p, how in sorted((r['probes'] or {}).items()):
+            if how == 'miss' and p not in g.producer:
+                same = sorted(o for o in g.producer if os.path.basename(o) == os.path.basename(p) and o != p)
+                if same:
+                    misplaced.append((p, same[0], g.name(g.producer[same[0]])))
+        for d in g.edges[x]['ins'] + g.edges[x]['impl_ins'] + g.edges[x]['order_ins']:
+            if d not in g.producer and not os.path.lexists(os.path.join(slot.build, d)):
+                same = sorted(o for o in g.producer if os.path.basename(o) == os.path.basename(d) and o != d)
+                if same and not any(m[0] == d for m in misplaced):
+                    misplaced.append((d, same[0], g.name(g.producer[same[0]])))
+        res['broken_detail'] = {'step': g.name(x), 'kind': g.kind(x), 'command': r.get('command', ''), 'output': r['out'][-1500:],
+                                'misplaced': misplaced,
+                                'declared_inputs_nobody_produces': [d for d in g.edges[x]['ins'] + g.edges[x]['impl_ins'] +
+                                                                    g.edges[x]['order_ins'] if d not in g.producer and
+                                                                    not os.path.lexists(os.path.join(slot.build, d))]}
         return res
     digests = ref['digests']
     res['ref_order'] = ref['done']
